@@ -757,17 +757,19 @@ def classify(h, init, steps, v, known):
                 if was_open and q["st"] == 3 and q["reason"] in (1, 5) and 0 <= q["expr"] < len(h["_ast"]):
                     if not mono_py(h["_ast"][q["expr"]], max(q["t"], 1), q["av"]):
                         return "known", "C15-nonmonotone-expression"
-        if clause == 11 and so is not None and "C15-logout-reject-drift" in known:
-            # explained by the listed finding only if a logout proposal of a role was rejected in this
-            # step, its role is available again, and every proposal that now counts too many electors
-            # has that role in its electorate
+        if clause == 11 and so is not None and m == 0 and "C15-available-drift" in known:
+            # explained by the listed finding only if (the model reproduces the trace and) this step
+            # concluded a role proposal that makes its role available again - a rejected logout or an
+            # approved activation -, that role is an elector of every proposal that now counts more
+            # available electors than its electorate, and each of those counts grew by exactly one
             prev = steps[step - 1]["props"] if step > 0 else init["props"]
             roles = {x[0]: x[1] for x in so["roles"]}
             objs = [q["obj"] for i, q in enumerate(so["props"])
-                    if q["kind"] == 0 and q["ev"] == 4 and q["st"] == 3 and (i >= len(prev) or prev[i]["st"] < 2) and roles.get(q["obj"]) in (3, 4)]
-            over = [q for i, q in enumerate(so["props"]) if q["av"] > q["t"] and (i >= len(prev) or prev[i]["av"] <= prev[i]["t"])]
-            if objs and over and all(any(e[0] in objs for e in q["elect"]) for q in over):
-                return "known", "C15-logout-reject-drift"
+                    if q["kind"] == 0 and ((q["ev"] == 4 and q["st"] == 3) or (q["ev"] == 3 and q["st"] == 2))
+                    and (i >= len(prev) or prev[i]["st"] < 2) and roles.get(q["obj"]) in (3, 4)]
+            over = [(i, q) for i, q in enumerate(so["props"]) if q["av"] > q["t"] and (i >= len(prev) or prev[i]["av"] <= prev[i]["t"])]
+            if objs and over and all(i < len(prev) and q["av"] == prev[i]["av"] + 1 and any(e[0] in objs for e in q["elect"]) for i, q in over):
+                return "known", "C15-available-drift"
         return "violation", "step %d: %s" % (step, CLAUSES.get(clause, "clause %d" % clause))
     if m == 0:
         return "ok", ""
